@@ -54,6 +54,9 @@ CHECKS = {
  "C14": ("exploration", "A", "deterministic simulation: the same simulated run reported in four formats (stdout / -o), also under short reads and an unreadable inode; invariant checker with the documented replica rule",
          "Seeded worlds x filters x --isolate/-H/-S/transform: header statistics recomputed from the body, per-group counts, ordering, absolute paths, isolate-root contiguity, and identical group structure across text/JSON/CSV/fdupes.",
          "redundant count accepts both documented computations when a group holds hard links; path order checked for root contiguity here, permutation invariance in C13", "4/C14"),
+ "C18": ("exploration", "A", "deterministic simulation: move under injected rename/copy/unlink/mkdir failures, simulated second device, pre-populated targets; inventory oracle",
+         "Seeded worlds x target variants x pre-existing entries at mapped locations x fault plans; mapping, no overwrite/alteration of existing entries, source removed only with complete bytes at the target, collided sources kept, no stray files, content conservation.",
+         "second device simulated by the device-pin hook plus EXDEV at the seam; symlink members not generated", "4/C18"),
 }
 NOT_APPLICABLE = {
  "C16": "pure function of (glob pattern, string): no schedule, clock, fault, stream or history for a simulator to control; needs bounded-exhaustive input enumeration against a reference matcher, which is a different technique (DESIGN section 5)",
